@@ -107,12 +107,20 @@ OpenRetViol(e) ==
                 THEN Check("C02", "no-session-without-authentic-rakp2", e.err)
                      \cup Check("C02", "wrong-rakp2-gives-incorrect-password", e.err => e.errClass = "ErrIncorrectPassword")
            ELSE IF o = "error" THEN Check("C02", "no-session-from-mutated-transcript", e.err)
+                \* a reply cut short is not a valid response: an establishment that reports success on it has not had one (C13)
+                \cup (IF Has(info, "mut") /\ info.mut \in {"osr-short", "r2-short", "r4-short", "osr-trunc", "r2-trunc", "r4-trunc"}
+                      THEN Check("C13", "success-only-after-a-valid-response", e.err) ELSE {})
            ELSE IF o = "anyerror" THEN Check("C12", "no-session-unless-response-confirms-proposal", e.err)
            ELSE IF o = "userTooLong" THEN Check("C06", "username-longer-than-16-bytes-rejected-not-truncated", e.err)
            ELSE {})
 
 CmdRetViol(e) ==
   Check("C05", "no-panic-no-hang", ~Has(e, "panic") /\ ~Has(e, "hang"))
+  \* the BMC answered the (first) transmission with a valid final response: that ends the command, with that response
+  \* (C10), however many commands went before on the session (C17)
+  \cup Check("C10", "a-valid-final-response-ends-the-command", Has(e, "err") /\ ~e.err /\ e.code = e.exp.code)
+  \cup (IF seqN > 1 THEN Check("C17", "result-of-a-later-call-independent-of-what-preceded-it",
+                               Has(e, "err") /\ ~e.err /\ e.code = e.exp.code /\ Has(e, "value") /\ e.value.data = e.exp.data) ELSE {})
   \cup (IF Has(e, "panic") \/ Has(e, "hang") \/ ~Has(e, "err") THEN Check("C01", "response-returned-to-caller", FALSE)
         ELSE Check("C01", "response-returned-to-caller",
                    ~e.err /\ e.code = e.exp.code /\ Has(e, "value") /\ e.value.data = e.exp.data))
